@@ -2319,6 +2319,8 @@ class Statements(Sequence, Immutable):
         """
         g = self._create_dependency_graph()
         index = self.index(statement)
+        if index not in g:
+            return Statements()
         succ = sorted(list(g.successors(index)))
         stats = Statements()
         stats._statements = [self[i] for i in succ]
@@ -2361,7 +2363,7 @@ class Statements(Sequence, Immutable):
                 raise KeyError(f"Could not find symbol {symbol}")
         g = self._create_dependency_graph()
         symbs = self[i].rhs_symbols
-        if i == 0 or not g:
+        if i == 0 or i not in g:
             # Special case for models with only one statement or no dependent statements
             return symbs
         for j, _ in nx.bfs_predecessors(g, i, sort_neighbors=lambda x: reversed(sorted(x))):
